@@ -73,6 +73,9 @@ def _cases(tier, rng):
             o1, o2 = rng.sample(outs, 2)
             yield {"dag": d, "output": o1, "second_output": o2, "sequential": True, "with_dag": False,
                    "cache": rng.choice(("simple", "lru", "hybrid", "hybrid", "disk"))}  # (disk: with its in-memory front)
+        if rng.random() < 0.3:
+            # fault: one needed function raises the first time it is invoked; the evaluation is then asked for again
+            yield {"dag": d, "output": rng.choice(outs), "with_dag": rng.random() < 0.5, "fail_once": rng.randrange(10**6)}
         if rng.random() < 0.15:
             # history: a construct_dag() block that was left through an exception comes first
             yield {"dag": d, "output": rng.choice(outs), "with_dag": rng.random() < 0.5,
@@ -122,6 +125,30 @@ def _check(case):
             bad.append(f"functions invoked before evaluate(): {[n for n, _ in log]}")
         if not isinstance(r, _LazyFunction):
             bad.append(f"lazy pipeline returned {type(r).__name__}, not a deferred object")
+            return bad
+        if case.get("fail_once") is not None and calls:
+            class _Once(RuntimeError):
+                pass
+            victim = sorted(calls)[case["fail_once"] % len(calls)]
+            progs.set_fail({"func": victim, "call": 0, "exc": lambda: _Once("injected")})
+            try:
+                r.evaluate()
+                bad.append(f"the failure of {victim} did not surface from evaluate()")
+            except _Once:
+                pass
+            finally:
+                progs.set_fail(None)
+            n1 = len(log)
+            got = r.evaluate()  # asked again: the functions that had not produced a value are invoked now
+            if got != want:
+                bad.append(f"after {victim} failed once, evaluate() = {got!r}, eager value {want!r}")
+            names = [n for n, _ in log[n1:]]
+            if len(names) != len(set(names)) or victim not in names:
+                bad.append(f"after {victim} failed once, the repeated evaluate() invoked {names}")
+            done = [n for n, _ in log[:n1] if n != victim]
+            if set(done) & set(names):
+                bad.append(f"after {victim} failed once, the repeated evaluate() re-invoked {sorted(set(done) & set(names))}, "
+                           "which had produced their values")
             return bad
         got = r.evaluate()
         if got != want:
